@@ -61,7 +61,7 @@ Lemma ct_of_array_ok v :
 Proof.
   intros Hv. unfold ct_of_array, slice.
   change (SECRET_VECTOR_N * RING_SIZE)%nat with 256%nat. change RING_SIZE with 64%nat. change SECRET_VECTOR_N with 4%nat.
-  rewrite Hv. change (256 <=? 320)%nat with true. cbn [skipn]. rewrite Nat.sub_0_r.
+  rewrite Hv. change (256 <=? 320)%nat with true. cbv iota. change (skipn 0 v) with v. rewrite Nat.sub_0_r.
   assert (L1 : length (firstn 256 v) = (4 * 64)%nat) by (rewrite firstn_length; lia).
   assert (L2 : length (skipn 256 v) = 64%nat) by (rewrite skipn_length; lia).
   destruct (chunks_go_exact 64 4 (length (firstn 256 v)) (firstn 256 v)) as [F L]; try lia.
@@ -87,9 +87,13 @@ Proof.
   eexists. split; [reflexivity|]. split; [exact Lv|].
   unfold ct_of_array, slice.
   change (SECRET_VECTOR_N * RING_SIZE)%nat with 256%nat. change RING_SIZE with 64%nat. change SECRET_VECTOR_N with 4%nat.
-  rewrite Lv. change (256 <=? 320)%nat with true. cbn [skipn]. rewrite Nat.sub_0_r.
-  rewrite <- Lc at 1 2. rewrite firstn_app, Nat.sub_diag, firstn_all. cbn [firstn]. rewrite app_nil_r.
-  rewrite skipn_app, Nat.sub_diag, skipn_all. cbn [skipn app].
+  rewrite Lv. change (256 <=? 320)%nat with true. cbv iota. change (skipn 0 (concat bg ++ m)) with (concat bg ++ m).
+  rewrite Nat.sub_0_r.
+  assert (F1 : firstn 256 (concat bg ++ m) = concat bg).
+  { rewrite <- Lc. rewrite firstn_app, Nat.sub_diag, firstn_all. cbn [firstn]. apply app_nil_r. }
+  assert (F2 : skipn 256 (concat bg ++ m) = m).
+  { rewrite <- Lc. rewrite skipn_app, Nat.sub_diag, skipn_all. reflexivity. }
+  rewrite F1, F2.
   rewrite (chunks_concat 64 bg) by (try lia; exact F).
   rewrite (forallb_length_eqb _ 64 F), L, Lm. reflexivity.
 Qed.
@@ -98,8 +102,10 @@ Qed.
 Definition bitv (m k : Z) : Z := Z.land (Z.shiftr m k) 1.
 Lemma bitv_range m k : 0 <= bitv m k <= 1.
 Proof.
-  unfold bitv. change 1 with (Z.ones 1) at 1. rewrite Z.land_ones by lia.
-  change (2 ^ 1) with 2. pose proof (Z.mod_pos_bound (Z.shiftr m k) 2 ltac:(lia)). lia.
+  unfold bitv.
+  assert (E : Z.land (Z.shiftr m k) 1 = Z.shiftr m k mod 2).
+  { change 1 with (Z.ones 1). rewrite Z.land_ones by lia. reflexivity. }
+  rewrite E. pose proof (Z.mod_pos_bound (Z.shiftr m k) 2 ltac:(lia)). lia.
 Qed.
 
 Lemma embed_nibble_eq m s :
@@ -212,6 +218,18 @@ Proof.
     f_equal. f_equal. apply (recompose_byte m Hb).
 Qed.
 
+Lemma lane_noise_example :
+  Forall byte [90; 255] /\ Forall (lane_noise (EXTRACT_THRESHOLD - 3)) [16381; P - 16381; 0; (16381 * 65536) mod P].
+Proof.
+  split; [repeat constructor; unfold byte; lia|].
+  change (EXTRACT_THRESHOLD - 3) with 16381.
+  repeat constructor.
+  - exists 16381, 0, 0, 0. repeat split; (lia || reflexivity).
+  - exists (-16381), 0, 0, 0. repeat split; (lia || reflexivity).
+  - exists 0, 0, 0, 0. repeat split; (lia || reflexivity).
+  - exists 0, 16381, 0, 0. repeat split; (lia || reflexivity).
+Qed.
+
 (* ------------------------------------------------------------------ KEM *)
 Lemma me_eqb_eq a b : me_eqb a b = true -> a = b.
 Proof. apply list_eqb_eq. exact zlist_eqb_eq. Qed.
@@ -245,9 +263,9 @@ Section KEMProofs.
     unfold dec, reenc. intros H.
     destruct (dec_payload shake256 sk c) as [payload|]; [|discriminate].
     destruct (derive_public_key shake256 (fst sk) (snd sk)) as [pk|]; [|discriminate].
-    destruct (generate_ciphertext_derandomized shake256 pk payload) as [regen|]; [|discriminate].
+    destruct (generate_ciphertext_derandomized shake256 pk payload) as [regen|] eqn:G; [|discriminate].
     destruct (ct_eqb regen c) eqn:E; [|discriminate].
-    apply ct_eqb_eq in E. subst regen. exists payload. inversion H. auto.
+    apply ct_eqb_eq in E. subst regen. exists payload. inversion H. rewrite G. repeat split; reflexivity.
   Qed.
 
   (* conversely, dec accepts exactly when the ciphertext is the re-encryption of the payload it decodes to *)
